@@ -221,6 +221,11 @@ fn process_dir(
     // As WalkDir seems not providing a function to check its stack,
     // using current_dir is a workaround to check leaving directory.
     let mut current_dir: Option<PathBuf> = None;
+    // With -depth a directory is evaluated after its contents, which an
+    // action (-delete) may have changed by then. The tests must see the
+    // directory as it was when the walk reached it: its metadata is taken
+    // when the first entry below it turns up, one slot per depth.
+    let mut open_dirs: Vec<Option<(PathBuf, std::fs::Metadata)>> = Vec::new();
     while let Some(result) = it.next() {
         match WalkEntry::from_walkdir(result, config.follow)
             .map(|entry| {
@@ -237,6 +242,28 @@ fn process_dir(
                 writeln!(&mut stderr(), "Error: {err}").unwrap();
             }
             Ok(entry) => {
+                if config.depth_first {
+                    let depth = entry.depth();
+                    if open_dirs.len() < depth {
+                        open_dirs.resize(depth, None);
+                    }
+                    for (up, dir) in entry.path().ancestors().skip(1).take(depth).enumerate() {
+                        let slot = &mut open_dirs[depth - 1 - up];
+                        if slot.as_ref().is_some_and(|(path, _)| path == dir) {
+                            break;
+                        }
+                        *slot = config
+                            .follow
+                            .metadata_at_depth(dir, depth - 1 - up)
+                            .ok()
+                            .map(|meta| (dir.to_path_buf(), meta));
+                    }
+                    if let Some((path, meta)) = open_dirs.get_mut(depth).and_then(Option::take) {
+                        if path == entry.path() {
+                            entry.set_metadata(meta);
+                        }
+                    }
+                }
                 // walkdir clamps min_depth down to max_depth (with
                 // -mindepth > -maxdepth no entry is in range), and broken
                 // symlinks recovered from its errors bypass its depth filter.
